@@ -48,9 +48,7 @@ func c10Property(t *rapid.T) {
 
 	check := func(what string, x, y *sbom.NodeList, res *sbom.NodeList) hx.Sets {
 		sx, sy := hx.GraphSets(x), hx.GraphSets(y)
-		if res == nil {
-			t.Fatalf("%s returned nil", what)
-		}
+		// (a nil result reads as the empty list)
 		sr := hx.GraphSets(res)
 		inter := map[string]int{}
 		for k := range sx.Nodes {
@@ -77,7 +75,7 @@ func c10Property(t *rapid.T) {
 			_, inX := sx.Roots[r]
 			_, inY := sy.Roots[r]
 			if !(inX || inY) || inter[r] == 0 {
-				t.Fatalf("%s has root %q that is not a surviving root of an operand: X=%s Y=%s got roots %v", what, r, hx.DescribeNL(x), hx.DescribeNL(y), res.RootElements)
+				t.Fatalf("%s has root %q that is not a surviving root of an operand: X=%s Y=%s got roots %v", what, r, hx.DescribeNL(x), hx.DescribeNL(y), res.GetRootElements())
 			}
 		}
 		for r := range sx.Roots {
@@ -106,7 +104,7 @@ func c10Property(t *rapid.T) {
 			}
 		}
 		// attributes of survivors: second operand wins when non-empty
-		for _, n := range res.Nodes {
+		for _, n := range res.GetNodes() {
 			checkPrecedence(t, what, n, nodeByID(y, n.Id), nodeByID(x, n.Id))
 		}
 		return sr
